@@ -17,16 +17,17 @@ def build(targets=("PyPred", "driver"), timeout=3000):
     return p.returncode == 0, p.stdout + p.stderr
 
 
-def run(lines, timeout=3000):
-    """Send request lines, return the answer lines (same length)."""
+def run(lines, timeout=3000, exe="driver", src="Driver.lean"):
+    """Send request lines to a compiled driver (lean_exe `exe`, source `src`), return the answer lines (same length)."""
     lines = list(lines)
     if not lines:
         return []
     data = "\n".join(lines) + "\n"
-    if os.path.exists(EXE):
-        cmd = [EXE]
+    path = os.path.join(LEAN_DIR, ".lake", "build", "bin", exe)
+    if os.path.exists(path):
+        cmd = [path]
     else:  # fallback: interpreter
-        cmd = ["lake", "env", "lean", "--run", "Driver.lean"]
+        cmd = ["lake", "env", "lean", "--run", src]
     p = subprocess.run(cmd, cwd=LEAN_DIR, input=data, capture_output=True, text=True, timeout=timeout)
     if p.returncode != 0:
         raise DriverError(f"driver exit {p.returncode}: {p.stderr[:2000]}")
